@@ -374,7 +374,7 @@ pub fn run(ctx: &Ctx) -> Result<Evidence, String> {
         .flat_map(|op| vec![format!("$[?@.l {} @.r]", op), format!("$[?!(@.l {} @.r)]", op), format!("$[?@.l {} 1]", op), format!("$[?@.l {} 1.0]", op), format!("$[?1.5 {} @.r]", op), format!("$[?@.l {} null]", op), format!("$[?@.l {} 'a']", op), format!("$[?@.l {} true]", op)])
         .collect();
     let val_q = crate::c10::value_queries();
-    let n_a = ctx.tier.pick(150_000, 2_000_000);
+    let n_a = ctx.tier.pick(150_000, 30_000_000);
     let n_b = pair_docs.len() * cmp_q.len();
     let n_c = val_q.len();
     let seed = ctx.seed;
